@@ -62,9 +62,13 @@ def build_cases(tier, seed):
             for c in COH:
                 for za in (0, 1):
                     cs.append(("sbt", (a, b, c, za)))
+    from . import gens as _g
+    for k in range(len(_g.two_bloc_params(tier))):
+        cs.append(("nbt2", k))
     _CASES = cs
     meta = {
-        "family": "preference intervals over 1..4 candidates with supports from {0,1e-9,1e-3,0.1,1,3,1e3} (all tuples; every 3rd 4-tuple in quick) incl. the "
+        "family": "two-bloc generators of the C14 parameter grid (combined interval and name-BT table of each bloc, dictionaries listed in "
+                  "different orders); preference intervals over 1..4 candidates with supports from {0,1e-9,1e-3,0.1,1,3,1e3} (all tuples; every 3rd 4-tuple in quick) incl. the "
                   "name-Bradley-Terry table of each; name-BT on 5..7 candidates (thorough: all multisets over {0,0.1,1,3}); "
                   "combine_preference_intervals for 1..3 blocs x cohesion vectors over {0,0.3,0.5,0.7,1} summing to 1 and the skewed vectors (.001,.999),(1e-6,1-1e-6),(.001,.001,.998) with supports down to 1e-6; slate-Bradley-Terry ballot-type "
                   f"tables for slate sizes a+b<={maxab} (a>=1), cohesion in {COH}, with and without a zero-support candidate",
@@ -91,7 +95,7 @@ def case_from_json(j):
     def tup(x):
         return tuple(tup(y) for y in x) if isinstance(x, list) else x
 
-    return (j["kind"], tup(j["data"]))
+    return (j["kind"], tup(j["data"]) if j["kind"] != "nbt2" else j["data"])
 
 
 witness_case = case_from_json
@@ -289,6 +293,35 @@ def run_sbt(i, data, cnt, out):
         cnt["nontrivial"] += 1
 
 
+def run_nbt2(i, k, tier, cnt, out):
+    """Two blocs: the generator's combined interval and name-BT table of each bloc against the definitions."""
+    from . import gens
+
+    p = gens.two_bloc_params(tier)[k]
+    cnt["executions"] += 1
+    for model in ("name_BradleyTerry", "name_PlackettLuce", "name_Cumulative"):
+        try:
+            g = gens.build_generator(model, p, **({"num_votes": 1} if model == "name_Cumulative" else {}))
+        except Exception as e:
+            out["viols"].append(_viol("exception", model, i, f"{type(e).__name__}: {e}"))
+            return
+        for b in p["props"]:
+            iv, zero = gens.combined_interval(p, b)
+            got = g.pref_interval_by_bloc[b]
+            if set(got.interval) != set(iv) or set(got.zero_cands) != set(zero) or any(not close(got.interval[c], iv[c]) for c in iv):
+                out["viols"].append(_viol("values", model + ".pref_interval_by_bloc", i,
+                                          f"bloc {b}: combined interval {dict(got.interval)} (zero {sorted(got.zero_cands)}) != cohesion-weighted definition {iv} (zero {zero})"))
+                return
+            if model == "name_BradleyTerry":
+                tab = g.pdfs_by_bloc[b]
+                exp = gens.bt_table(iv)
+                if set(tab) != set(exp) or any(not close(tab[r], exp[r]) for r in exp) or not close(sum(tab.values()), 1):
+                    out["viols"].append(_viol("values", "name_BradleyTerry.pdfs_by_bloc", i, f"bloc {b}: table differs from the definition on the combined interval"))
+                    return
+                cnt["tables"] += 1
+    cnt["nontrivial"] += 1
+
+
 def run_case(i, tier):
     kind, c = _get(i)
     cnt = collections.Counter()
@@ -301,6 +334,8 @@ def run_case(i, tier):
         cnt["nontrivial"] += 1
     elif kind == "combine":
         run_combine(i, c, cnt, out)
+    elif kind == "nbt2":
+        run_nbt2(i, c, tier, cnt, out)
     else:
         run_sbt(i, c, cnt, out)
     cnt["states"] += 1
